@@ -561,6 +561,13 @@ func (p *Proxy) handle(ctx *Context, conn net.Conn, brw *bufio.ReadWriter) error
 	defer unlink(req)
 
 	if tsconn, ok := conn.(*trafficshape.Conn); ok {
+		// A new exchange starts: the traffic shaping context of the previous
+		// response on this connection is over. Whatever is written from here on
+		// without passing the shaping block below (the answer to a CONNECT and
+		// the tunnel behind it, the bytes of a hijacker) must not be throttled,
+		// halted or cut by what that response left behind.
+		tsconn.Context = &trafficshape.Context{}
+
 		wrconn := tsconn.GetWrappedConn()
 		if sconn, ok := wrconn.(*tls.Conn); ok {
 			session.MarkSecure()
